@@ -252,7 +252,9 @@ fn float_to_u32(v: f64) -> R<u32> {
 
 /// Convert a scalar to another kind with C/HLSL conversion rules
 pub fn convert(v: &Scalar, to: Kind) -> R<Scalar> {
-    if v.kind() == to && !v.is_undef() {
+    // copying a value of the same kind is not a use: an indeterminate value may be passed around (both interpreters trap when
+    // it is computed with, converted, tested or observed)
+    if v.kind() == to {
         return Ok(*v);
     }
     Ok(match (v, to) {
